@@ -181,8 +181,9 @@ func (p *Parser) parseVP8X(buf []byte) error {
 	// Advance past VP8X chunk.
 	pos := ChunkHeaderSize + int(padded64)
 
-	// Default animation values.
-	p.features.LoopCount = 1
+	// Default animation values. The loop count stays 0 until an ANIM chunk is
+	// read, which is what the demuxer and the animation reader report for the
+	// same file.
 	p.features.BGColor = 0xFFFFFFFF
 
 	// Parse remaining chunks.
